@@ -30,5 +30,30 @@ with common.Scratch("selftest") as s:
     okk, tr = common.validate_trace("TraceContainers", "TraceContainers.cfg", tp)
     print("TraceContainers bad lines:", tr.verdicts[-1]["bad"])
     ok = ok and okk and tr.verdicts[-1]["bad"] == [2]
+# the read-stack trace specification: a recorded trace of the real dfs is accepted; the same trace with a view position off by
+# one, the volume event removed, a cache hit carrying other data, or a body read beyond the file's last sector is rejected
+import mkdisc, discs, readtrace
+with common.Scratch("selftest") as s:
+    bdir = common.build("ndebug")
+    d = discs.build("OPUS", [mkdisc.entry("A", length=700, start=20)], s, "rs", salt=3, title=b"RS")
+    o, evs = readtrace.record([common.exe(bdir, "dfs"), "--file", d.path, "type", "--binary", ":0B.$.A"], s, "good", ctx=dict(kind="plain1", cyl=80, spt=18, vols=[[d.origin, d.vol_len]]))
+    def bad_lines(events):
+        tp = os.path.join(s, "r.ndjson")
+        open(tp, "w").write("".join(json.dumps(e) + "\n" for e in events))
+        okk, tr = common.validate_trace("TraceReadStack", "TraceReadStack.cfg", tp)
+        return tr.verdicts[-1]["bad"] if okk and tr.verdicts else None
+    ib = next(i for i, e in enumerate(evs) if e["e"] == "body")
+    iv = next(i for i in range(ib, len(evs)) if evs[i]["e"] == "vread")
+    ivol = next(i for i in range(ib, len(evs)) if evs[i]["e"] == "volread")
+    ih = next(i for i, e in enumerate(evs) if e["e"] == "cread" and e["hit"] == 1)
+    m1 = json.loads(json.dumps(evs)); m1[iv]["pos"] += 1
+    m2 = [e for i, e in enumerate(evs) if i != ivol]
+    m3 = json.loads(json.dumps(evs)); m3[ih]["sum"] += 1
+    m4 = json.loads(json.dumps(evs)); m4[ib]["sec"] = m4[ib]["last"] + 1
+    m5 = json.loads(json.dumps(evs)); m5[0]["cyl"] = 40          # the harness claims another container: the view no longer matches
+    m6 = json.loads(json.dumps(evs)); m6[0]["vols"] = [[d.origin, d.vol_len + 18]]     # the volume table says otherwise
+    rs = dict(good=bad_lines(evs), other_volume=bad_lines(m6), view_pos=bad_lines(m1), no_volread=bad_lines(m2), cache_sum=bad_lines(m3), beyond_file=bad_lines(m4), other_container=bad_lines(m5))
+    print("TraceReadStack (%d events, rc=%s):" % (len(evs), o.rc), rs)
+    ok = ok and rs["good"] == [] and all(rs[k] for k in rs if k != "good")
 print("BINDING OK" if ok else "BINDING BROKEN")
 sys.exit(0 if ok else 1)
